@@ -138,6 +138,13 @@ func readAllReader(rd io.Reader) (string, bool) {
 		return "", false
 	}
 	b, _ := io.ReadAll(rd)
+	// one more Read after the end: legal (it keeps returning 0, io.EOF) and what a
+	// caller polling a reader does; a result that releases resources on EOF must
+	// cope with it
+	var one [8]byte
+	if n, _ := rd.Read(one[:]); n > 0 {
+		b = append(b, one[:n]...)
+	}
 	return string(b), true
 }
 
